@@ -393,6 +393,25 @@ class Library:
         f['dur_us_t__count'] = 'static inline int64_t dur_us_t__count(dur_us_t d) { return d.us; }'
         f['dur_ms_t__from__int'] = 'static inline dur_ms_t dur_ms_t__from__int(int k) { dur_ms_t d; d.ms = k; return d; }'
         f['dur_ms_t__count'] = 'static inline int64_t dur_ms_t__count(dur_ms_t d) { return d.ms; }'
+        # duration arithmetic between integer durations (chrono converts both operands to the finer unit: exact)
+        units = {'dur_s_t': ('s', 1000000), 'dur_ms_t': ('ms', 1000), 'dur_us_t': ('us', 1)}
+        for ta, (fa, ka) in units.items():
+            f['%s__op_sub' % ta] = 'static inline %s %s__op_sub(%s a, %s b) { %s d; d.%s = a.%s - b.%s; return d; }' % (ta, ta, ta, ta, ta, fa, fa, fa)
+            f['%s__op_add' % ta] = 'static inline %s %s__op_add(%s a, %s b) { %s d; d.%s = a.%s + b.%s; return d; }' % (ta, ta, ta, ta, ta, fa, fa, fa)
+            f['%s__op_addassign' % ta] = 'static inline %s %s__op_addassign(%s *a, %s b) { a->%s = a->%s + b.%s; return *a; }' % (ta, ta, ta, ta, fa, fa, fa)
+            f['%s__op_subassign' % ta] = 'static inline %s %s__op_subassign(%s *a, %s b) { a->%s = a->%s - b.%s; return *a; }' % (ta, ta, ta, ta, fa, fa, fa)
+            f['ext__max__%s_%s' % (ta, ta)] = 'static inline %s ext__max__%s_%s(%s a, %s b) { return (a.%s < b.%s) ? b : a; }' % (ta, ta, ta, ta, ta, fa, fa)
+            f['ext__min__%s_%s' % (ta, ta)] = 'static inline %s ext__min__%s_%s(%s a, %s b) { return (b.%s < a.%s) ? b : a; }' % (ta, ta, ta, ta, ta, fa, fa)
+            for tb, (fb, kb) in units.items():
+                k = min(ka, kb)
+                A = '(a.%s * %dL)' % (fa, ka // k) if ka // k != 1 else 'a.%s' % fa
+                B = '(b.%s * %dL)' % (fb, kb // k) if kb // k != 1 else 'b.%s' % fb
+                suf = '' if ta == tb else '__' + tb
+                for opn, opc in (('lt', '<'), ('le', '<='), ('gt', '>'), ('ge', '>='), ('eq', '=='), ('ne', '!=')):
+                    f['%s__op_%s%s' % (ta, opn, suf)] = 'static inline _Bool %s__op_%s%s(%s a, %s b) { return %s %s %s; }' % (ta, opn, suf, ta, tb, A, opc, B)
+                # duration / duration: the common representation (int64), truncating
+                f['%s__op_div%s' % (ta, suf)] = ('static inline int64_t %s__op_div%s(%s a, %s b) { __CPROVER_assert(%s != 0, "UB: integer division of a duration by a zero duration"); '
+                                                 'return I_DIV_i64(%s, %s); }' % (ta, suf, ta, tb, B, A, B))
         # duration_cast<seconds>(nanoseconds): truncation toward zero
         f['ext__duration_cast__dur_s_t__dur_ns_t'] = (
             'static inline dur_s_t ext__duration_cast__dur_s_t__dur_ns_t(dur_ns_t d) { dur_s_t r; '
